@@ -346,8 +346,11 @@ class PointwiseNorm(PointwiseTensorFieldOperator):
             gi *= gi.ufuncs.absolute().ufuncs.power(self.exponent - 2)
             if self.exponent >= 2:
                 # Any component that is zero is not divided with
-                nz = (vf_pwnorm_fac.asarray() != 0)
-                gi[nz] /= vf_pwnorm_fac[nz]
+                # (divide the arrays: indexing the elements would create two
+                # sub-spaces that differ for array-weighted base spaces)
+                fac_arr = vf_pwnorm_fac.asarray()
+                nz = (fac_arr != 0)
+                gi[nz] = gi.asarray()[nz] / fac_arr[nz]
             else:
                 # For exponents < 2 there will be a singularity if any
                 # component is zero. This results in inf or nan. See the
